@@ -475,10 +475,7 @@ theorem tables_opCcs {s : St} (h : Tables s) (ver : Nat) : Tables (opCcs s ver).
   obtain ⟨s2, ev1⟩ := r2
   simp only at h2 ⊢
   split
-  · have h3 := tables_addSubConn h2
-    generalize addSubConn s2 = r3 at h3 ⊢
-    obtain ⟨s3, ok, ev2⟩ := r3
-    exact h3
+  · exact tables_enforceMinSize h2 _ _
   · exact h2
 
 theorem tables_opScs {s : St} (h : Tables s) (sc : Sc) (st : CState) (order : List Slot) :
